@@ -352,6 +352,7 @@ def run_family(ck: Check, scenarios, prefix: str, label: str) -> None:
             ck.sample({'scenario': name, 'steps': steps, 'events': [{k: v for k, v in e.items() if v not in ('', 0) or k == 't'} for e in ln[:40]]})
     bad, res = judge(lines, label)
     ck.tlc(res, f'Trace_ExaSession {label}: {len(lines)} events of {len(scenarios)} traces')
+    conformance(ck, lines, meta, label)
     ck.cov['traces_validated_against_impl'] = ck.cov.get('traces_validated_against_impl', 0) + len(scenarios)
     ck.cov['trace_lines'] = ck.cov.get('trace_lines', 0) + len(lines)
     other = {}
@@ -545,3 +546,103 @@ def peerloop_scripts(ck: Check, tier: str, seed: int) -> list:
         if adjacent:
             out.append((f'model{cfghold}:{compact}/coalesced', script_to_steps(script, True), {'horizon_ms': horizon, 'hold': cfghold}))
     return out
+
+
+# ------------------------------------------------------------------------------------------------------------
+# conformance of the recorded traces with the control flow of ExaPeerLoop (Trace_ExaPeerLoop)
+
+PL_TRACE_CFG = """SPECIFICATION TraceSpec
+CONSTANTS
+  G = 1250
+  OpenWait = 60000
+  CfgHold = {cfghold}
+  Offers = {{9000}}
+  SendClasses = {{"OPEN"}}
+  Ticks = {{1}}
+  TearCodes = {{2}}
+  Budget = 1000000
+  EdgeCover = FALSE
+  EstablishEarly = FALSE
+  NoHoldTimer = FALSE
+  AnswerNotification = FALSE
+  StarveAccepted = FALSE
+VIEW TView
+INVARIANT Progress
+POSTCONDITION Reached
+CHECK_DEADLOCK FALSE
+"""
+
+
+def with_time(lines: list) -> list:
+    """one explicit `time` line wherever the virtual clock moved (the model's steps take no time)"""
+    out, t = [], 0
+    for ln in lines:
+        if ln['e'] == 'Begin':
+            t = 0
+        elif ln['t'] != t:
+            t = ln['t']
+            out.append(dict(FIELDS, tid=ln['tid'], e='time', t=t))
+        out.append(ln)
+    return out
+
+
+def conform(traces: dict, cfghold_ms: int, label: str):
+    """traces: tid -> normalised lines.  -> (accepted tids, {tid: (line index, event)} for the traces TLC could not follow, TLC results)"""
+    pending = dict(traces)
+    drift, results = {}, []
+    for _ in range(12):
+        if not pending:
+            break
+        order = sorted(pending)
+        lines, owner = [], []
+        for tid in order:
+            tl = with_time(pending[tid])
+            lines += tl
+            owner += [tid] * len(tl)
+        path = os.path.join(tlc.WORK, f'plt-{label}.ndjson')
+        with open(path, 'w') as f:
+            for ln in lines:
+                f.write(json.dumps(ln) + '\n')
+        cfg = os.path.join(tlc.WORK, f'plt-{label}.cfg')
+        open(cfg, 'w').write(PL_TRACE_CFG.format(cfghold=cfghold_ms))
+        res = tlc.run('Trace_ExaPeerLoop', cfg, f'plt-{label}', workers=1, env={'TRACE_FILE': path}, timeout=1800)
+        results.append(res)
+        reached = [v for v in res.printed() if v[1] == 'reached']
+        os.unlink(path)
+        if not reached:
+            raise tlc.TLCError('Trace_ExaPeerLoop did not finish: ' + res.out[-2500:])
+        at = reached[-1][2]
+        if at >= len(lines) + 1:
+            break
+        tid = owner[at - 1]
+        drift[tid] = (at, {k: v for k, v in lines[at - 1].items() if v not in ('', 0) or k == 't'})
+        del pending[tid]
+    return [t for t in traces if t not in drift], drift, results
+
+
+def conformance(ck: Check, lines: list, meta: dict, label: str) -> None:
+    """Every recorded trace against the control flow of ExaPeerLoop (Trace_ExaPeerLoop).  A trace TLC cannot follow is a DRIFT
+    between model and code: noted in the evidence and printed, never a violation of the property (exit code unchanged)."""
+    by_tid: dict = {}
+    for ln in lines:
+        by_tid.setdefault(ln['tid'], []).append(ln)
+    groups: dict = {}
+    skipped = 0
+    for tid, tl in by_tid.items():
+        name, steps, kw = meta[tid]
+        if kw.get('passive') or any(st.get('do') in ('remove', 'readd') for st in steps):
+            skipped += 1        # not modelled: passive mode, neighbour removed and configured again
+            continue
+        groups.setdefault(kw.get('hold', 9), {})[tid] = tl
+    accepted = 0
+    for hold, traces in sorted(groups.items()):
+        ok, drift, results = conform(traces, hold * 1000, f'{label}-h{hold}')
+        accepted += len(ok)
+        for r in results[-1:]:
+            ck.tlc(r, f'Trace_ExaPeerLoop {label}: control-flow conformance of {len(traces)} traces (configured hold {hold} s)')
+        for tid, (at, ev) in drift.items():
+            msg = f'DRIFT (model/code control flow, not a property verdict): scenario {meta[tid][0]}: Trace_ExaPeerLoop cannot follow event {ev}'
+            print(msg)
+            ck.notes.append(msg)
+    ck.cov['traces_conforming_to_ExaPeerLoop'] = ck.cov.get('traces_conforming_to_ExaPeerLoop', 0) + accepted
+    ck.cov['traces_not_checked_for_conformance'] = ck.cov.get('traces_not_checked_for_conformance', 0) + skipped
